@@ -15,7 +15,16 @@ root-queue array and (pointer-sized loads/stores only) anywhere else.  This modu
      order) and of the operations on dq_items_tail (every exchange returns the previous tail) and judges the run against what
      SLane's invariant predicts and an observer can see: callouts in tail-exchange order (FIFO), never overlapping, only inside a
      drain-lock interval of the dq_state chain, every submitted item run exactly once when the lane went idle, dq_state and
-     dq_items_tail back at their idle values, ENQUEUED set exactly once per root-queue push and taken exactly once per lock.
+     dq_items_tail back at their idle values, ENQUEUED set exactly once per root-queue push and taken exactly once per lock, every
+     value of the word free or drain-locked in the shape of SLane_proofs.ginv_r;
+  4. replays every round as a run of the GLOBAL model: SLaneR.abstract (Coq) reads the SLane actions off each accepted thread
+     trace, this module orders them by the recorder's stamps made consistent with the two exact chains, and SLaneR.sched (Coq)
+     executes them on SLane.begin / SLane.gstep, taking at each point the first thread (within a window of the preferred order)
+     whose next action is enabled in the model AND has the recorded outcome (was_empty, probe result, lock restart, every dq_state
+     value written, pop of last / more, item identity).  The round is reproduced iff every action is consumed and the model ends
+     idle with the recorded dq_state, an empty list and all items started in order.  C01_slanet_replay_reach: whatever the
+     scheduler is given, it only takes steps of SLane.  The need_override wakeup of a push onto a non-empty list, which SLane does
+     not model, is replayed by SLaneR.override_step and counted (steps_outside_SLane).
 
 correspond(ctx) returns the usual dict; lib/props/c01.py and c02.py merge it into the result of lanes.run."""
 import os
@@ -25,14 +34,18 @@ import common
 import conc
 import driver
 
-COQ_DEPS = ["Proofs/SLaneT_proofs.vo", "Model/SLaneR.vo"]
+COQ_DEPS = ["Proofs/SLaneT_proofs.vo", "Proofs/SLaneR_proofs.vo"]
 PROPERTIES_FILE = "Properties/Properties_C01_slanet.v"
 GEN_MODULES = ["Gen_dqstate", "Gen_lanesites", "Gen_fields"]
 LEVEL = "proof"
 TRUSTED = [
     "Model/SLaneT.v (hand-written observation automaton) is tied to the source by C01_slanet_sites_match (kinds, fields, memory "
     "orders, call order of the atomic sites of the functions involved, regenerated on every run) and to the running library by the "
-    "in-Coq replay of every recorded thread trace; it is tied to Model/SLane.v by C01_slanet_gstep_tstep / _reach_tstep",
+    "in-Coq replay of every recorded thread trace; it is tied to Model/SLane.v by C01_slanet_gstep_tstep / _reach_tstep and by the "
+    "replay of every recorded round on SLane.gstep itself (Model/SLaneR.v, C01_slanet_replay_reach)",
+    "the global replay orders the actions with the recorder's stamps (a global ticket taken right after each operation) corrected by the "
+    "exact value chains of dq_state and dq_items_tail; a wrong order can only make the replay fail, never succeed wrongly: the "
+    "scheduler checks every action against the model",
     "normalisation of the recordings (lib/props/c01_slane.py): offsets -> Gen_fields numbers, items recognised by value (addresses "
     "exchanged into dq_items_tail during the round), root-queue internals / reference counts / dq_atomic_flags dropped, runs of "
     "identical NULL spin loads compressed to one, callout marks joined with the item address through the harness ticket",
@@ -725,7 +738,9 @@ def correspond(ctx, tag="c01_slane"):
                     "(each dq_state compare-exchange must write what the generated body computes from the value read); the successful "
                     "dq_state transitions and the dq_items_tail operations are put in their exact global order (value chains) and the run "
                     "is judged against SLane's observable predictions (FIFO in tail-exchange order, no overlap, callouts inside a lock "
-                    "interval, ENQUEUED set once per root push and cleared once per lock, all items ran once when idle); "
+                    "interval, ENQUEUED set once per root push and cleared once per lock, every word value free or drain-locked, all items "
+                    "ran once when idle); every round is then replayed as a run of the global model (SLaneR.sched on SLane.gstep: each "
+                    "action enabled in the model with the recorded outcome, final model state = recorded final state); "
                     "distinct = distinct sets of automaton branches taken by a thread trace",
             "samples": samples, "distribution": dist_all, "traces_validated_against_impl": len(jobs), "notes": notes,
             "mismatches": mism[:20], "failures": fails[:20]}
